@@ -1,6 +1,7 @@
 import WR.Base.Sexp
 import WR.C13.Model
 import WR.C13.Spec
+import WR.C13.Auto
 open WR WR.Sexp WR.C13
 
 namespace Driver.C13
@@ -57,6 +58,12 @@ def getRRow : Sexp → Option RRow
   | .list (h :: cells) => do some { height := ← optRat h, cells := ← cells.mapM getRCell }
   | _ => none
 
+def getColIn : Sexp → Option ColIn
+  | .list [mn, mx, pct, c, hc, hm] => do
+    some { min := ← mn.asRat?, max := ← mx.asRat?,
+           attr := { constrained := ← c.asBool?, pct := ← pct.asRat?, hasCell := ← hc.asBool?, hasMax := ← hm.asBool? } }
+  | _ => none
+
 def handle (req : Sexp) : Sexp :=
   let r : Option Sexp := match req with
     | .list [.atom "judge", eps, g] => do
@@ -70,6 +77,26 @@ def handle (req : Sexp) : Sexp :=
       let i : FixedIn := { width := ← width.asRat?, sx := ← sx.asRat?, cols := ← cols.mapM optRat, first := ← first.mapM getFirst }
       let (w, cw) := fixedLayout i
       some (ok [ofRat w, .list (cw.map ofRat), .list ((fixedKnown i).map putOptRat)])
+    | .list [.atom "auto", width, available, tmin, tmax, spacing, .list (.atom "cols" :: cols)] => do
+      let i : AutoIn := { width := ← optRat width, available := ← available.asRat?, tableMin := ← tmin.asRat?,
+                          tableMax := ← tmax.asRat?, spacing := ← spacing.asRat?, cols := ← cols.mapM getColIn }
+      let (w, cw) := autoLayout i
+      let a := autoWidth i - i.spacing
+      let branch := if i.cols.isEmpty then "empty"
+        else if a ≤ sumR (guess a i.cols 3) then
+          (if upperIdx a i.cols = lowerIdx a i.cols then "guess" else "interpolate")
+        else "distribute"
+      -- distance of the assignable width to the nearest guess sum: the branch conditions compare them, so
+      -- a float32 run may take another branch than the exact model when this is below the rounding error
+      let absR (q : Rat) : Rat := if q < 0 then -q else q
+      let margins := (List.range 4).map fun k => absR (sumR (guess a i.cols k) - a)
+      let margin := margins.foldl (fun m q => if q < m then q else m) (absR a + 1)
+      some (ok [ofRat w, .list (cw.map ofRat), .atom branch, ofRat margin])
+    | .list [.atom "stack", sy, ty, spec, .list (.atom "hs" :: hs)] => do
+      let sy ← sy.asRat?
+      let ty ← ty.asRat?
+      let o := stackGroups sy (ty + sy) (← hs.mapM Sexp.asRat?)
+      some (ok [.list (o.1.map ofRat), ofRat o.2, ofRat (tableHeight (← optRat spec) ty o.2)])
     | .list [.atom "place", rtl, tx, tw, sx, .list (.atom "ws" :: ws), .list (.atom "rows" :: rows)] => do
       let rtl ← rtl.asBool?
       let tx ← tx.asRat?
